@@ -1,5 +1,7 @@
 //! Provides very minimal template mechanism for FieldPos.
 
+#[cfg(okane_verif)]
+use crate::verif::std;
 use std::{collections::HashMap, fmt::Display, str::FromStr};
 
 use serde::{Deserialize, Serialize};
